@@ -681,6 +681,9 @@ class Engine:
         if op in ('==', '!='):
             e = self.equal(st, a, b)
             return e if op == '==' else z3.Not(e)
+        if op == '+' and (isinstance(a, Opaque) or isinstance(b, Opaque) or (is_z3(a) and a.sort() == Str)
+                          or (is_z3(b) and b.sort() == Str)):
+            return Opaque('str')          # string concatenation (message building is dropped)
         if op in ('<', '<=', '>', '>=', '+', '-', '*', '/', '%'):
             x, y = as_int(a), as_int(b)
             return {'<': lambda: x < y, '<=': lambda: x <= y, '>': lambda: x > y, '>=': lambda: x >= y,
@@ -1316,8 +1319,8 @@ class Engine:
 
     def loop_core(self, n, k, spec, st, cond, bind, inc, body, extra_modified=(), cond_nodes=()):
         line = n.get('line')
-        cx = Ctx(self, st)
-        entry = st.clone()
+        # contracts see the *function* entry state as `entry` (old values of parameters and of the heap)
+        entry = self.fn_entry if getattr(self, 'fn_entry', None) is not None and self.inline_depth == 0 else st.clone()
         # 1. invariant holds on entry
         for name, e in spec.inv(Ctx(self, st, entry=entry)):
             self.oblige(st, 'III', f'loop{k}:inv-init:{name}', e, line)
@@ -1484,11 +1487,14 @@ class Engine:
         obj = st.heap[oid]
         if isinstance(obj, NodeVec):
             st.heap[oid] = NodeVec.symbolic(f'{obj.name or name}@L{k}!{next(M._counter)}')
+            st.pc.append(st.heap[oid].len >= 0)
         elif isinstance(obj, ScalarVec):
             st.heap[oid] = ScalarVec.symbolic(f'{obj.name or name}@L{k}!{next(M._counter)}', obj.sort)
+            st.pc.append(st.heap[oid].len >= 0)
         elif isinstance(obj, PairVec):
             tag = f'{name}@L{k}!{next(M._counter)}'
             st.heap[oid] = PairVec(z3.Int(tag + '.len'), z3.Array(tag + '.a', Int, Int), z3.Array(tag + '.b', Int, Int))
+            st.pc.append(st.heap[oid].len >= 0)
         elif isinstance(obj, SpecObj):
             self.havoc_obj(st, obj.trav, name + '.trav', k)
             st.heap[oid] = SpecObj(obj.trav, fresh(f'{name}.nil@L{k}', Bool), fresh(f'{name}.ns@L{k}', Str))
@@ -1603,6 +1609,7 @@ class Engine:
         st = State()
         cx = contract.setup(self, st, fn)          # binds parameters / this, asserts preconditions as facts
         entry = st.clone()
+        self.fn_entry = entry
         body = next(c for c in fn.c if c.k == 'CompoundStmt')
         self.ret_is_ref = fn.t.split('(')[0].strip().endswith('&')
         outs = self.ex(body, st)
